@@ -33,6 +33,15 @@ pub(crate) fn accept_loop(inner: Arc<Inner>, listener: TcpListener) {
     }
 }
 
+/// Close our side. During teardown the socket is left alone: `Collector::shutdown` has armed
+/// SO_LINGER(0) and the final `close` (when the last descriptor goes) resets the connection, which
+/// keeps it out of TIME_WAIT; a FIN sent here first would defeat that.
+fn hang_up(inner: &Inner, stream: &TcpStream) {
+    if !inner.is_shutdown() {
+        let _ = stream.shutdown(Shutdown::Both);
+    }
+}
+
 fn find(hay: &[u8], needle: &[u8]) -> Option<usize> {
     hay.windows(needle.len()).position(|w| w == needle)
 }
@@ -107,12 +116,12 @@ fn serve(inner: Arc<Inner>, mut stream: TcpStream, conn: u64) {
             match fill(&mut stream, &mut buf) {
                 Ok(true) => {}
                 _ => {
-                    let _ = stream.shutdown(Shutdown::Both);
+                    hang_up(&inner, &stream);
                     return;
                 }
             }
             if buf.len() > 1 << 20 {
-                let _ = stream.shutdown(Shutdown::Both);
+                hang_up(&inner, &stream);
                 return;
             }
         };
@@ -158,7 +167,7 @@ fn serve(inner: Arc<Inner>, mut stream: TcpStream, conn: u64) {
         if decision == Decision::CloseBeforeRead {
             inner.finish(idx, Outcome::Dropped);
             // unread request bytes in the receive queue make this a reset rather than a clean FIN
-            let _ = stream.shutdown(Shutdown::Both);
+            hang_up(&inner, &stream);
             return;
         }
 
@@ -189,7 +198,7 @@ fn serve(inner: Arc<Inner>, mut stream: TcpStream, conn: u64) {
         let Ok(body) = body else {
             // the client went away mid-request
             inner.finish(idx, Outcome::Dropped);
-            let _ = stream.shutdown(Shutdown::Both);
+            hang_up(&inner, &stream);
             return;
         };
         let wire_len = body.len();
@@ -202,7 +211,7 @@ fn serve(inner: Arc<Inner>, mut stream: TcpStream, conn: u64) {
         // response (complete a flush, send the next request) before this thread runs again, and a check
         // that reads the log at that moment must already see the request as answered. A failed write
         // downgrades the entry to Dropped afterwards.
-        let mut answer = |inner: &Inner, stream: &mut TcpStream, status: u16, close: bool| -> Outcome {
+        let answer = |inner: &Inner, stream: &mut TcpStream, status: u16, close: bool| -> Outcome {
             let planned = if (200..300).contains(&status) { Outcome::Acked } else { Outcome::Rejected };
             inner.update(idx, |r| r.outcome = planned);
             match respond(stream, status, close, json) {
@@ -244,7 +253,7 @@ fn serve(inner: Arc<Inner>, mut stream: TcpStream, conn: u64) {
         }
         inner.finish(idx, outcome);
         if close || inner.is_shutdown() {
-            let _ = stream.shutdown(Shutdown::Both);
+            hang_up(&inner, &stream);
             return;
         }
     }
